@@ -58,6 +58,22 @@ def run(ctx):
     rep.rule("C04.R7", "dependence monotonicity (K13) over every primal/derivative pair of K5: a stated derivative reads no datum its primal does not read", 30)
     from .. import depmono as _dm
     _dm.check_k5_pairs(ctx, "C04.R7", ['RigidBody', 'PointMass', 'Frame'])
+    rep.rule("C04.R8", "the callables a Frame is built from (check_time_derivatives) and the discrete bodies contain no closure that binds a loop variable late", 3)
+    from .. import closures as _cl
+    for rel_, mod_ in sorted(ctx.repo.modules.items()):
+        if not (rel_ == "cardillo/utility/check_time_derivatives.py" or rel_.startswith("cardillo/discrete/")):
+            continue
+        for q_, fn_ in mod_.defs().items():
+            if not isinstance(fn_, ast.FunctionDef):
+                continue
+            found_ = _cl.find(fn_)
+            if found_:
+                for clo_, loop_, late_ in found_:
+                    rep.bad("C04.R8", f"{rel_}:{q_}", clo_, f"the closure `{norm_src(clo_)[:60]}` is created in a loop and reads {late_}, which the loop re-binds: when it is called "
+                            "after the loop it sees the value of the last iteration (e.g. the first time derivative of a prescribed motion silently becomes the second one)",
+                            f"{rel_}:{clo_.lineno}")
+            elif any(isinstance(w_, (ast.Lambda,)) for w_ in ast.walk(fn_)):
+                rep.ok("C04.R8", f"{rel_}:{q_}", "closures of this function bind no loop variable late")
     rep.rule("C04.R1", "chain-rule coverage (K5) of the discrete bodies", 15)
     rep.rule("C04.R2", "Frame time chain", 4)
     rep.rule("C04.R3", "offset dependence of the point kinematics family", 10)
@@ -211,6 +227,12 @@ MUTANTS += [
          edits=[(RB, "        return Exp_SO3_quat(q[3:])\n", "        return Exp_SO3_quat(q[3:], normalize=False)\n"),
                 (RB, "        A_IB_q[:, :, 3:] = Exp_SO3_quat_P(q[3:])\n", "        A_IB_q[:, :, 3:] = Exp_SO3_quat_P(q[3:], normalize=False)\n")],
          expect="C04.R6"),
+]
+CTD = "cardillo/utility/check_time_derivatives.py"
+MUTANTS += [
+    dict(id="c04-r8-seed", canary=True, what="[seeded by sub-agent] check_time_derivatives wraps constant derivatives inside a loop: the lambdas bind the loop variable late", file=CTD,
+         old="        if f_t is not None:\n            if callable(f_t):\n                f_t__ = f_t\n            else:\n                f_t__ = lambda t: f_t\n",
+         new="        consts = []\n        for df in (f_t, f_tt):\n            consts.append(lambda t: df)\n        if f_t is not None:\n            if callable(f_t):\n                f_t__ = f_t\n            else:\n                f_t__ = consts[0]\n", expect="C04.R8"),
 ]
 NEUTRAL = [
     dict(id="c04-n-r6", what="RigidBody.A_IB spells the default out", file=RB,
